@@ -30,8 +30,7 @@ MANIFEST = dict(
          "else, reversed-stack fold, callback table); model tied to the code by differential "
          "execution (items, end/exception class, number of source items pulled, what next() finds on the source "
          "object afterwards and whether close() was called on it, several pipelines and suspended iterators over "
-         "one source object, repr/behaviour of a re-used prefix spec, behaviour of eval(repr(spec)) for chains of "
-         "literal arguments) through the compiled Lean driver.",
+         "one source object, repr/behaviour of a re-used prefix spec) through the compiled Lean driver.",
     note="partial because itertools' islice/takewhile/dropwhile/chain and boltons' chunked_iter/windowed_iter/"
          "split_iter/unique_iter/first are external code: their pull behaviour is modelled from documentation "
          "and observed behaviour (islice mirrors CPython's cnt/next counters) and validated only by the "
@@ -387,33 +386,8 @@ def run_impl(case):
     else:
         main = run_first(d2, src, mode, cat, sk, r)
     out['impl'] = {'main': main, 'repr_same': r0 == r1, 'before': before, 'after': after,
-                   'reused': reused, 'fresh': fresh, 'repr_rt': None}
-    if literal_chain(case):
-        # the repr names every stage with all its arguments: evaluating it gives the same pipeline
-        import glom
-        try:
-            again = eval(repr(d2), {'Iter': glom.Iter, 'T': glom.T})
-        except Exception:
-            again = None
-        if isinstance(again, glom.Iter):
-            out['impl']['repr_rt'] = run_take(again, src, k, sk, r)
-        else:
-            out['impl']['repr_rt'] = {'items': [], 'fin': {'raised': 'ReprNotEvaluable'}, 'pulls': 0,
-                                      'src_after': reused['src_after']}
+                   'reused': reused, 'fresh': fresh}
     return out
-
-
-def literal_chain(case):
-    """every argument of the chain is a literal (no callables: their repr is not evaluable).
-    `Iter(sentinel=s)` is left out: the repr of an Iter does not show its sentinel."""
-    if case['sub'] != 'T' or case.get('sentinel') is not None:
-        return False
-    for op in case['p'] + case['e2']:
-        if op.get('f') is not None or op['op'] == 'map':
-            return False
-        if isinstance(op.get('sep'), dict) and 'fn' in op['sep']:
-            return False
-    return True
 
 
 # ----------------------------------------------------------------------------- one source, several pipelines
